@@ -269,23 +269,30 @@ fn is_identity_acceptable(items: &'_ [QualityItem<Preference<Encoding>>]) -> boo
     }
 
     // Loop algorithm depends on items being sorted in descending order of quality. As such, it
-    // is sufficient to return (q > 0) when reaching either an "identity" or "*" item.
+    // is sufficient to look at the first "identity" item and the first "*" item.
+    let mut wildcard_acceptable = None;
+
     for q in items {
         match (q.quality, &q.item) {
             // occurrence of "identity;q=n"; return true if quality is non-zero
+            // (a specific entry for "identity" takes precedence over "*", wherever it is ranked)
             (q, Preference::Specific(Encoding::Known(ContentEncoding::Identity))) => {
                 return q > Quality::ZERO
             }
 
-            // occurrence of "*;q=n"; return true if quality is non-zero
-            (q, Preference::Any) => return q > Quality::ZERO,
+            // first occurrence of "*;q=n"; decides only if there is no "identity" item
+            (q, Preference::Any) => {
+                if wildcard_acceptable.is_none() {
+                    wildcard_acceptable = Some(q > Quality::ZERO);
+                }
+            }
 
             _ => {}
         }
     }
 
-    // implicit acceptable identity
-    true
+    // no "identity" item: "*" decides, otherwise identity is implicitly acceptable
+    wildcard_acceptable.unwrap_or(true)
 }
 
 #[cfg(test)]
